@@ -131,7 +131,8 @@ fn evaluate_operator(
             _ => return Err(()),
         },
         ir::IntrinsicOp::BitwiseNot => match arg_values[0] {
-            ir::Constant::IntLiteral(input) => ir::Constant::IntLiteral(!input),
+            // Untyped literals are exact - a value that does not fit is not a constant
+            ir::Constant::IntLiteral(input) => int_literal(!input)?,
             ir::Constant::Int32(input) => ir::Constant::Int32(!input),
             ir::Constant::UInt32(input) => ir::Constant::UInt32(!input),
             _ => panic!("unexpected type in BitwiseNot"),
